@@ -10,6 +10,7 @@ checked directly on the implementation's table.
 """
 import itertools
 import json
+import os
 
 from vlib import common, zw
 
@@ -32,7 +33,9 @@ def pool(tier):
             "F1 symbol (pos == 2) visibility"]
     strs = ['""', '"a"', '"ab"', '"b"', '"a\\x00"', '"a\\x00b"', '"\\xff"', '"\\x7f"', '"\\x80a"', '"z"', '"1"']
     seqs = ["[]", "[1]", "[3]", "[0x3]", "[1, 2]", "[2, 1]", '["a"]', "[[1]]", "[[]]", '[1, "a"]', '["a", 1]', "[DW_AT_name]",
-            "[[1], [2]]", '["a", "b"]', '[[], 1]', '[1, []]', "[DW_TAG_entry_point]", "[1, 2, 3]"]
+            "[[1], [2]]", '["a", "b"]', '[[], 1]', '[1, []]', "[DW_TAG_entry_point]", "[1, 2, 3]",
+            # long ones whose first difference (of type, of value) comes late
+            "[1, 1, 1, 1, 1, 1, 1, 1, 1, 1]", '[1, 1, 1, 1, 1, 1, 1, 1, 1, "a"]', '[1, 1, 1, 1, 1, 1, 1, 1, "a", 0]', '[1, 1, 1, 1, 1, 1, 1, 1, 2, []]']
     asets = ["0 0 aset", "0 10 aset", "0 10 aset 20 30 aset add", "5 10 aset", "0 10 aset 20 31 aset add", "[0 10 aset]",
              # ranges far apart in the 64-bit address space (start or length differing by 2^62, 2^63 and more)
              "0x4000000000000001 0x4000000000000011 aset", "0x8000000000000002 0x8000000000000012 aset",
@@ -198,6 +201,9 @@ def run(ctx):
 
     def law(what, case):
         nonlocal law_viol
+        if ctx.matches_known(case) is not None:
+            ctx.violation(what, case)        # a listed finding: printed once, not counted against the cap
+            return
         law_viol += 1
         if law_viol <= 6:
             ctx.violation(what, case)
@@ -234,24 +240,51 @@ def run(ctx):
     # ---- DWARF values: DIEs reached through nested imports (their identity includes the chain of
     # imports), units, attributes: the same laws, checked by zero-count queries on generated forests
     from vlib import dwcheck, dwforest
+    REFFORMS = "?(form (== DW_FORM_ref4, == DW_FORM_ref_addr, == DW_FORM_ref_udata, == DW_FORM_ref1, == DW_FORM_ref2, == DW_FORM_ref8, == DW_FORM_GNU_ref_alt))"
     DWLAWS = [
         ("die:reflexive", "[entry] (|L| L elem (|A| ?(A != A), ?(A < A), ?(A > A), !(A == A), (A dup ?ne), !(A dup ?eq)))"),
         ("die:exactly-one", "[entry] (|L| L elem (|A| L elem (|B| [?(A < B) 1, ?(A == B) 1, ?(A > B) 1] ?(length != 1))))"),
         ("die:duality", "[entry] (|L| L elem (|A| L elem (|B| (?(A < B) !(B > A)), (?(A > B) !(B < A)), (?(A == B) !(B == A)), (?(A != B) !(B != A)), (?(A <= B) !(B >= A)))))"),
         ("die:words-agree", "[entry] (|L| L elem (|A| L elem (|B| (?(A < B) !(A B ?lt)), (!(A < B) ?(A B ?lt)), (?(A == B) !(A B ?eq)), (!(A == B) ?(A B ?eq)), (?(A >= B) !(A B ?ge)))))"),
-        ("die:transitive", "[entry] (|L| L elem (|A| L elem (|B| ?(A <= B) L elem (|C| ?(B <= C) !(A <= C)))))"),
+        # (triples of one and the same DIE along different routes: see die:routes-transitive)
+        ("die:transitive", "[entry] (|L| L elem (|A| L elem (|B| ?(A <= B) L elem (|C| ?(B <= C) !(A <= C) !((A offset == B offset) (B offset == C offset))))))"),
         ("die:equal-means-same", "[entry] (|L| L elem (|A| L elem (|B| ?(A == B) ?((A offset) != (B offset)))))"),
         ("unit:exactly-one", "[unit] (|L| L elem (|A| L elem (|B| [?(A < B) 1, ?(A == B) 1, ?(A > B) 1] ?(length != 1))))"),
         ("attr:reflexive", "entry attribute (|A| ?(A != A), !(A == A), ?(A < A))"),
     ]
+    DWLAWS += [
+        # units that are equal are the same unit - also when the Dwarf value spans several files / sections
+        # whose units start at the same offsets (a dwz alternate file, the members of an archive)
+        ("unit:equal-means-same", "[(unit, entry ?TAG_imported_unit @AT_import unit, raw entry ?TAG_imported_unit @AT_import unit)] "
+                                  "(|L| L elem (|A| L elem (|B| ?(A == B) (?((A root) != (B root)), ?([A entry offset] != [B entry offset])))))"),
+        ("unit:all-exactly-one", "[(unit, entry ?TAG_imported_unit @AT_import unit)] (|L| L elem (|A| L elem (|B| [?(A < B) 1, ?(A == B) 1, ?(A > B) 1] ?(length != 1))))"),
+        # the same DIE reached along two different chains of imports (A, C) and without any chain, as the target
+        # of a reference (B): B equals both, they differ from each other (a DIE without an import chain matches
+        # any context, by design: known finding)
+        ("die:routes-transitive", "[entry] (|L| [entry attribute " + REFFORMS + " value ?(type == T_DIE)] (|R| L elem (|A| R elem ?(offset == A offset) (|B| ?(A == B) L elem ?(offset == A offset) (|C| ?(B == C) ?(A != C))))))"),
+    ]
     dwin = [(nm, pth) for nm, _, pth in dwcheck.build_inputs(ctx, 6 if ctx.tier == "quick" else 40, imports=True, links=False)]
+    # an archive of two generated objects (two modules, both with a unit at offset 0) and the dwz samples
+    import subprocess as _sp
+    ar_path = os.path.join(os.path.dirname(dwin[0][1]), "two-members.a")
+    if os.path.exists(ar_path):
+        os.unlink(ar_path)
+    small = [pth for nm, pth in dwin if nm in ("hollow", "only-empty", "import-cu")][:2]
+    if len(small) == 2 and _sp.run(["ar", "rcS", ar_path] + small).returncode == 0:
+        dwin.append(("archive-of-two", ar_path))
+    for smp in ("a1.out", "dwz-partial2-1", "dwz-partial3-1", "twocus"):
+        dwin.append((smp, os.path.join(common.REPO, "tests", smp)))
     ndw = 0
     for nm, pth in dwin:
         sizes = zw.run_cases([zw.enc("[entry] length", dw=pth, t=60)])[0]
-        if not sizes.ok() or not sizes.results or int(sizes.results[0][0]["v"]) > 45:
-            continue                       # the transitivity law is cubic in the number of DIEs
-        counts = dwforest.law_counts(pth, DWLAWS)
-        for ln, q in DWLAWS:
+        if not sizes.ok() or not sizes.results:
+            continue
+        ndies = int(sizes.results[0][0]["v"])
+        if ndies > 400:
+            continue
+        laws_here = [(ln, q) for ln, q in DWLAWS if ndies <= 45 or ln != "die:transitive"]    # that one is cubic in the number of DIEs
+        counts = dwforest.law_counts(pth, laws_here)
+        for ln, q in laws_here:
             evaluations += 1
             ndw += 1
             if counts[ln] != 0:
